@@ -12,8 +12,12 @@
    panicked where the model returns a tree; 6 model panics / runs out of fuel
    where the implementation returned a tree; 7 malformed case; 8 makeBox table;
    9 class table; 10 proper-parents table; 11 two cells of the
-   implementation's tree share a grid slot (tree otherwise as the model says). *)
-From Verif Require Export Base.GoSem Box.BoxGen Box.BoxWf.
+   implementation's tree share a grid slot (tree otherwise as the model says)
+   and every such pair is a column-spanning cell running into a cell spanning
+   down from a row above (the refuted part of the property, theorem
+   C09_slots_overlap_only_colspan_over_rowspan); 12 two cells share a grid slot
+   in any other way. *)
+From Verif Require Export Base.GoSem Box.BoxGen Box.BoxWf Box.TableGridOverlap.
 From Coq Require Import List ZArith NArith Bool.
 Import ListNotations.
 Open Scope Z_scope.
@@ -148,6 +152,12 @@ Definition model_out (c : case) : model_result :=
       match bty_of p, bty_of c with Some p, Some c => MBool (in_proper_parents p c) | _, _ => MMalformed end
   end.
 
+(* every pair of overlapping cells of every table is colspan-over-rowspan *)
+Fixpoint tables_overlaps_explained (b : box) : bool :=
+  running b ||
+  ((if table_t (ty b) then forallb (fun g => overlaps_explained (group_slots g)) (filter (is RowGroupT) (ch b)) else true)
+   && forallb tables_overlaps_explained (ch b)).
+
 Definition check (c : case) : N :=
   match c with
   | CTree input hidden status output =>
@@ -162,7 +172,9 @@ Definition check (c : case) : N :=
                    | Some bo =>
                        if negb (wf_root bo) then 3%N
                        else if negb (no_box_for hidden bo) then 4%N
-                       else if negb (tables_disjoint bo) then 11%N else 0%N
+                       else if negb (tables_disjoint bo) then
+                              (if tables_overlaps_explained bo then 11%N else 12%N)
+                       else 0%N
                    | None => 7%N
                    end
           | Ok _, _ => 5%N
